@@ -169,6 +169,7 @@ def install(ex):
         if re.match(r"^((core|alloc)::)?slice::<impl \[.*\]>::(sort|sort_unstable)$", c):
             l = lst_of(a[0]); l.sort(key=functools.cmp_to_key(cmp_val)); return TupleV([])
         if re.match(r"^core::slice::<impl \[.*\]>::reverse$", c): lst_of(a[0]).reverse(); return TupleV([])
+        if re.match(r"^Vec::<.*>::as_(mut_)?slice$", c) or c in ("Vec::as_slice", "Vec::as_mut_slice"): return a[0]
         if re.match(r"^core::slice::<impl \[.*\]>::split_last$", c):
             l = lst_of(a[0]); return opt(TupleV([Ref(l, len(l) - 1), l[:-1]])) if l else opt()
         if re.match(r"^core::slice::<impl \[.*\]>::(split_at)$", c):
